@@ -691,7 +691,7 @@ def run(ctx):
     sequence_checks(ctx)
 
     ctx.cov["trusted_base"] += [
-        "translator/stats_tables.py (Python ast -> Gen/StatsTables.v: einsum menu, Hessian-branch switches, TSTAT literals; statement-level text match of the scalar glue)",
+        "translator/stats_tables.py (Python ast -> Gen/StatsTables.v: crlb / crlb_split / confint normalised to value trees (locals substituted, helpers inlined, if/conditional expressions as truth tables, in-place operations kept distinct, dead-code and aliasing guards) and compared with the reference texts the model is written for; Hessian-branch switches; TSTAT literals)",
         "hand-written model Model/Stats.v tied to epgpy.stats by correspondence over exact Gaussian rationals (tolerance 1e-9 relative, compared in Coq)",
         "numpy.linalg.inv modelled as a parameter with hypothesis A*inv A = I = inv A*A; for every evaluated case the hypothesis is checked (inv_ok_b) on the executed adjugate inverse",
         "numpy.sqrt / log10 are not modelled: half-widths are compared through their squares, log10 through the Interval tactic",
